@@ -119,6 +119,10 @@ def free_add_to(res, tier, clauses, pid, only):
         g = [x for x in grid(tmp, "L4UdpGrid", tier) if only(x)]
         if not g:
             raise Inconclusive("no UDP scenario selected")
+        # every other scenario with datagrams of 5000 bytes: larger than a prefetch chunk, smaller than the pooled receive buffer
+        for i, x in enumerate(g):
+            if i % 2 == 1 and x["size"] == 9000:
+                x["size"] = 5000
         gf = os.path.join(tmp, "grid.ndjson")
         with open(gf, "w") as f:
             for x in g:
